@@ -58,6 +58,10 @@ impl BlockEncoder {
             closabled_object,
         };
         block.block_partitioning();
+        if block.nb_blocks == 0 {
+            // Empty object, there is no block to read
+            block.read_end = true;
+        }
         Ok(block)
     }
 
